@@ -39,7 +39,7 @@ from harness.adapters import window as W
 MANIFEST_ENTRY = {
     "text": "Lean theorem C13 (with C13_tiling, C13_share, C13_volume, C13_groups_cover, C13_complementary, C13_split_sum, C13_windows_rows) proves for the model of the repaired window code that, in measurement mode per site and in component mode per (site, equipment, component), the estimation windows partition [start date, end date) for every duration factor p/q in [0,1], every table of survey reports, every spacing (equal dates, surveys on the first and last day) and every ordering of neighbouring rates, that the larger bounding measurement receives floor(g f) / ceil(g f) days of each interval and that the volume is rate x days x 864/10; C13_tiling_any_rounding proves the partition for ANY integer in [0, gap] the code may obtain for floor(gap x factor), i.e. independently of floating point. The model is tied to the real gen_estimated_emissions_report / gen_estimated_comp_emissions_report / determine_start_and_end_dates / calculate_start_date / calculate_end_date / calculate_volume_emitted by differential correspondence on generated survey tables (dyadic factors, bit-exact), the float implementation is confronted on f = k/1000 x gap 0..2000 x both orderings and on random doubles with the tiling identity, the admissibility hypothesis and the share clause, and a direct oracle evaluates tiling, share (exactly floor/ceil on dyadic factors), volume and coverage on every table produced by the real code, including the CSV written by ProgramOutputManager and the <program>_<sim>_estimated_emissions.csv files of whole runs of the real simulator (both duration methods, dyadic and non-dyadic factors), where the dates-in-period hypothesis is measured on the real survey stream. C13_share_bounded_rounding extends the share clause to every rounding bounded by floor(g f)/ceil(g f) (what IEEE doubles deliver; checked on the grid). The period is [start date, end date): C13_days_covered / C13_inclusive_counterexample and known finding F7c record that the last simulated day is in no window.",
     "design_ref": "DESIGN.md 5.13",
-    "note": "trusted: Lean kernel + propext/Classical.choice/Quot.sound; the hand-written model (tied by sampled/structured-exhaustive correspondence, not proof); harness adapters and oracle; exact-rational theorems reach the float code through C13_tiling_any_rounding whose hypothesis (0 <= floor(g*a) <= g, start offset taken by subtraction) is checked on the grid and on random doubles, not proved over IEEE doubles; pandas sort/groupby/shift/diff and numpy floor as installed; survey reports outside [start, end], NaN rates and factors outside [0,1] are outside the statement; the repaired-emissions-to-remove report is not part of C13",
+    "note": "trusted: Lean kernel + propext/Classical.choice/Quot.sound; the hand-written model (tied by sampled/structured-exhaustive correspondence, not proof); harness adapters and oracle; exact-rational theorems reach the float code through C13_tiling_any_rounding whose hypothesis (0 <= floor(g*a) <= g, start offset taken by subtraction) is checked on the grid and on random doubles, not proved over IEEE doubles; pandas sort/groupby/shift/diff and numpy floor as installed; survey reports outside [start, end], NaN rates and factors outside [0,1] are outside the statement; of the repaired-emissions-to-remove report only that it is produced with defined, non-negative volumes is checked (its amounts belong to C14)",
     "technique": "Lean 4 proof over an executable model (exact rationals; tiling for every rounding) + differential correspondence with the real pandas code + exhaustive float grid confrontation + direct oracle",
 }
 
@@ -624,21 +624,71 @@ def oracle_wholerun(ctx, res):
                                          simulated_days=n_sim_days))
 
 
+def wholerun_corpus():
+    """stored whole-run witnesses (corpus/C13_wholerun_*.json), run first"""
+    import glob
+    import json
+    import os
+    return [json.load(open(p)) for p in sorted(glob.glob(os.path.join(core.VERIF, "corpus", "C13_wholerun_*.json")))]
+
+
+def crash_signature(log):
+    """narrow class of a crashed run that concerns C13: the traceback passes through the estimation
+    code (program_output.py / program_output_helpers.py); -> signature or None"""
+    import re
+    if "program_output.py" not in log and "program_output_helpers.py" not in log:
+        return None
+    fn = re.findall(r'File "[^"]*program_output(?:_helpers)?\.py", line \d+, in (\w+)', log)
+    exc = re.findall(r"^(\w+(?:Error|Exception))\b", log, flags=re.M)
+    return "C13:crash:wholerun:%s:%s" % (exc[-1] if exc else "Exception", fn[-1] if fn else "?")
+
+
+def oracle_to_remove(ctx, res):
+    """the companion file <program>_<sim>_estimated_repaired_emissions_to_remove.csv is produced by the
+    same call; every row must carry a finite, non-negative volume over a non-negative span"""
+    for prog in res.programs:
+        for sim in range(res.n_sims):
+            rows = res.estimated_to_remove(prog, sim)
+            for r in rows or []:
+                ctx.count("wholerun_to_remove_rows")
+                a, b = res.day_index(r.get(COL_START)), res.day_index(r.get(COL_END))
+                try:
+                    v = float(r.get(COL_VOL, "nan") or "nan")
+                except ValueError:
+                    v = float("nan")
+                if a is None or b is None or b < a or not (v >= 0.0) or v == float("inf"):
+                    ctx.violate("C13:to-remove:undefined-volume",
+                                "a row of the estimated-repaired-emissions-to-remove file has no end date / a NaN or negative volume",
+                                {"cfg": res.cfg, "program": prog, "sim": sim, "row": dict(r)})
+                elif a == b:
+                    ctx.count("wholerun_to_remove_rows_with_zero_span")
+
+
 def wholerun_stage(ctx):
     import concurrent.futures as cf
     from harness import wholerun as WR
-    cfgs = wholerun_configs(ctx, ctx.pick(2, 10))
+    corpus = wholerun_corpus()
+    ctx.count("wholerun_corpus_configs", len(corpus))
+    cfgs = corpus + wholerun_configs(ctx, ctx.pick(2, 10))
     with cf.ThreadPoolExecutor(max_workers=min(6, len(cfgs))) as ex:
         results = list(ex.map(lambda c: WR.run_config(c, debug=True, trace=True), cfgs))
     try:
         for res in results:
             if res.rc != 0:
                 ctx.count("wholerun_config_crashed")
-                ctx.note("whole-run configuration crashed (not judged by C13): " + res.log[-300:].replace("\n", " | "))
+                sig = crash_signature(res.log)
+                if sig:
+                    ctx.violate(sig, "the simulator crashed inside the estimation code: no estimated emissions "
+                                     "file for the program: " + res.log.strip().splitlines()[-1][:200],
+                                {"cfg": res.cfg, "log_tail": res.log[-1500:]})
+                else:
+                    ctx.note("whole-run configuration crashed outside the estimation code (not judged by C13): "
+                             + res.log[-300:].replace("\n", " | "))
                 continue
             ctx.count("wholerun_configs")
             ctx.count("wholerun_configs_" + res.cfg["duration_method"])
             oracle_wholerun(ctx, res)
+            oracle_to_remove(ctx, res)
             ctx.traces += 1
         if results and results[0].rc == 0:
             r0 = results[0]
@@ -759,19 +809,22 @@ def replay(ctx, data):
         res = WR.run_config(inp["cfg"], debug=True, trace=True)
         try:
             if res.rc != 0:
-                print("replay: the configuration crashed:", res.log[-500:])
-                return 2
+                print("replay: the configuration crashed:", crash_signature(res.log), res.log[-800:])
+                return 1 if crash_signature(res.log) else 2
             ctx.nontrivial = _Keys()
             oracle_wholerun(ctx, res)
+            oracle_to_remove(ctx, res)
         finally:
             res.cleanup()
+        known = {f["signature"] for f in core.load_findings()["findings"] if f["property"] == ctx.prop}
         seen = set()
         for v in ctx.violations:
             if v["signature"] not in seen:
                 seen.add(v["signature"])
                 i = v["input"]
-                print("oracle:", v["signature"], "-", v["what"], {k: i[k] for k in i if k not in ("cfg", "case")})
-        return 1 if ctx.violations else 0
+                print("KNOWN-FINDING (listed):" if v["signature"] in known else "oracle:", v["signature"], "-",
+                      v["what"], {k: i[k] for k in i if k not in ("cfg", "case", "log_tail")})
+        return 1 if seen - known else 0
     if "case" not in inp:
         print("replay: broken obligation / correspondence:", data.get("broken_obligations"),
               data.get("correspondence_disagreements"))
